@@ -872,6 +872,9 @@ func (e *AnimEncoder) encodeSubFrame(currCanvas *image.NRGBA, durMS int) error {
 	}
 
 	subImgNone := extractSubImage(currCanvas, rectNone)
+	if blendNone == BlendAlpha {
+		increaseTransparency(e.prevCanvas, subImgNone, rectNone, e.opts.Lossless)
+	}
 	bsNone, err := e.encodeFrame(subImgNone, e.opts.Lossless, e.opts.Quality)
 	if err != nil {
 		return fmt.Errorf("animation: encoding sub-frame (dispose-none): %w", err)
@@ -904,6 +907,9 @@ func (e *AnimEncoder) encodeSubFrame(currCanvas *image.NRGBA, durMS int) error {
 	}
 
 	subImgBG := extractSubImage(currCanvas, rectBG)
+	if blendBG == BlendAlpha {
+		increaseTransparency(prevDisposedCanvas, subImgBG, rectBG, e.opts.Lossless)
+	}
 	bsBG, err = e.encodeFrame(subImgBG, e.opts.Lossless, e.opts.Quality)
 	if err != nil {
 		// If encoding the BG candidate fails, fall through with DISPOSE_NONE.
@@ -956,6 +962,28 @@ func (e *AnimEncoder) encodeSubFrame(currCanvas *image.NRGBA, durMS int) error {
 	e.prevMuxIndex = e.muxer.NumFrames() - 1
 	e.frameCount++
 	return nil
+}
+
+// increaseTransparency prepares a sub-frame that will be alpha-blended onto
+// base (the canvas the player starts from): every non-opaque pixel that the
+// blend check accepted because it already matches base is made fully
+// transparent, so that blending leaves the canvas pixel untouched. Without
+// this step a semi-transparent pixel would be blended onto itself and come
+// out with a different colour and alpha. This is libwebp's
+// IncreaseTransparency (lossless: identical pixels; lossy: the non-opaque
+// pixels, which the blend check only accepts when similar to base).
+func increaseTransparency(base, sub *image.NRGBA, rect image.Rectangle, lossless bool) {
+	for y := 0; y < rect.Dy(); y++ {
+		for x := 0; x < rect.Dx(); x++ {
+			px := sub.NRGBAAt(x, y)
+			if px.A == 0xFF {
+				continue
+			}
+			if !lossless || px == base.NRGBAAt(rect.Min.X+x, rect.Min.Y+y) {
+				sub.SetNRGBA(x, y, color.NRGBA{})
+			}
+		}
+	}
 }
 
 // isCanvasIdentical returns true if every pixel in a and b is identical.
